@@ -343,12 +343,23 @@ Example C10_example_run :
               PopWF.history (ex_opts 8 15 0) p s [] p s.
 Proof.
   assert (Hok : is_ok (new_population (ex_opts 8 15 0) ex_start ex_s0) = true) by (vm_compute; reflexivity).
-  destruct (new_population (ex_opts 8 15 0) ex_start ex_s0) as [[p s]| | | | |] eqn:E; try discriminate.
+  destruct (new_population (ex_opts 8 15 0) ex_start ex_s0) as [[p s]| | | | |] eqn:E; try (discriminate Hok).
   exists p, s. split; [reflexivity|]. split; [exact (run_inv_spawn _ _ _ _ _ E)|constructor].
 Qed.
 
 (* numParents of the example options: floor(0.2 * 8 + 1) = 2 >= 1 *)
 Example C10_example_num_parents : num_parents (ex_opts 8 15 0) 8 = 2.
+Proof. vm_compute. reflexivity. Qed.
+
+(* the hypothesis numParents >= 1 of C10_champion_is_maximal holds for the survival thresholds the
+   harness uses (0.1, 0.2, 0.3, 1.0) and every species size from 1 to 400 *)
+Definition np_formula (sv : float) (n : Z) : Z :=
+  f_trunc_Z (ffloor (PrimFloat.add (PrimFloat.mul sv (f_of_Z n)) 1%float)).
+Example C10_num_parents_formula : forall o n, num_parents o n = np_formula (o_survival o) n.
+Proof. reflexivity. Qed.
+Example C10_example_num_parents_range :
+  forallb (fun sv => forallb (fun i => Z.leb 1 (np_formula sv (Z.of_nat i))) (seq 1 400))
+          [0x1.999999999999ap-4; 0x1.999999999999ap-3; 0x1.3333333333333p-2; 1]%float = true.
 Proof. vm_compute. reflexivity. Qed.
 
 (* Rounding tie (recorded finding): six organisms in one species; the first has raw fitness 7, the
